@@ -4,6 +4,7 @@
 Sub-checks
     ionic_list   ionic_strength(molalities, charges)       list / tuple / ndarray, plain or with units
     ionic_dict   ionic_strength({formula: molality})       charges read from the formulas (or a substances mapping)
+                 or from the substances a custom substance_factory yields for the keys
     dh_constants A and B: numeric path, units= path, constants-object path, own formula; exponent structure
     log_gamma    limiting / extended / davies log gamma = their formulas (mpmath), limits a*B -> 0 and I -> 0
     activity     *_activity_product and the two *ActivityProduct classes = exp(sum nu_i ln gamma_i)
@@ -31,7 +32,9 @@ RULE = ("Ion sets (2-11 ions, charges -4..+4, molalities n*2^k spanning 2^-40..6
         "and 'free' (log-uniform floats).  The expected warning status is recomputed from the actual numbers with "
         "Fractions (exactly 0 -> no warning, |net| >= 1e-12*sum|b z| -> warning, anything between - what float "
         "summation can blur - is not judged).  Dict form: keys are G1 formulas with the charge overridden to the "
-        "drawn value, or a pool of real ions.  Non-trivial (ionic_*): >= 3 ions, some |z| >= 2 and >= 6 decades "
+        "drawn value, or a pool of real ions.  substance_factory (with substances=None or the string form): default, "
+        "Species.from_formula, a reader of IUPAC-style keys ('Ca2+', 'SO42-'), a table lookup of synthetic names - the "
+        "expected charge is the one the factory assigns.  Non-trivial (ionic_*): >= 3 ions, some |z| >= 2 and >= 6 decades "
         "between the smallest and largest molality.  dh_constants: T 250-650 K, eps_r 5-100, rho 500-1500 kg/m3, "
         "b0 0.1-10 mol/kg as a quantity, or omitted, or the plain int 1 (every path), inputs in random compatible units; "
         "non-trivial = non-SI unit on some input.  log_gamma / "
@@ -417,6 +420,64 @@ POOL = [("Na+", 1), ("Cl-", -1), ("Mg+2", 2), ("SO4-2", -2), ("Al+3", 3), ("PO4-
         ("Na+(aq)", 1), ("C6H12O6", 0), ("[Co(NH3)6]+3", 3), ("Zr+4", 4), ("P2O7-4", -4)]
 
 
+# -- substance_factory ----------------------------------------------------------------------------------------------
+# ionic_strength(mapping, substances=None | "k1 k2 ...", substance_factory=f): the substances - hence the charges - are
+# the ones the factory yields for each key (both forms go through the factory on the unchanged tree).  Factories that
+# deviate observably from the default Substance.from_formula:
+#   species  Species.from_formula (a subclass instance with a phase index; same charges)
+#   iupac    keys written the IUPAC way, charge number before the sign and no blank ('Ca2+', 'SO42-', 'Fe(CN)64-',
+#            'Na+'); the factory below reads them into chempy's notation.  chempy's own parser would read 'Ca2+' as
+#            Ca2 with charge +1, so the charge the *factory* assigns is observable.  Ions of the pool only.
+#   table    arbitrary names 'S0', 'S1', ... looked up in a table (from the case) -> Substance(name, composition={0: z});
+#            the default parser would read them as neutral sulfur clusters.
+# The expected charge is taken from the case description (pool table / drawn z), never from the object returned.
+FACTORIES = ["default", "iupac", "table", "species"]
+_POOL_RE = None
+
+
+def _pool_parts(key):
+    """'Fe(CN)6-4' -> ('Fe(CN)6', '-', 4, ''); 'Na+(aq)' -> ('Na', '+', 1, '(aq)'); 'H2O' -> None"""
+    import re
+    m = re.match(r"^(.*?)([+-])(\d*)((?:\(aq\))?)$", key)
+    if not m:
+        return None
+    return m.group(1), m.group(2), int(m.group(3) or 1), m.group(4)
+
+
+def iupac_key(pool_key):
+    parts = _pool_parts(pool_key)
+    if parts is None:
+        return pool_key
+    stem, sign, mag, suffix = parts
+    return stem + (str(mag) if mag > 1 else "") + sign + suffix
+
+
+def _known_stems():
+    return {_pool_parts(k)[0] for k, z in POOL if z != 0}
+
+
+def iupac_factory(key):
+    """Reads 'Ca2+', 'SO42-', 'Cl-', 'Na+(aq)', 'H2O': the sign is the last character (before an optional '(aq)'), a
+    digit 2-4 directly before it is the charge number unless the text before the sign is itself a known formula
+    ('NH4+', 'NO3-': charge 1)."""
+    from chempy import Substance
+    suffix = "(aq)" if key.endswith("(aq)") else ""
+    body = key[:len(key) - len(suffix)]
+    if body[-1] not in "+-":
+        return _quiet(Substance.from_formula, key)
+    sign, rest = body[-1], body[:-1]
+    stems = _known_stems()
+    if rest in stems:
+        stem, mag = rest, 1
+    elif rest[-1] in "234" and rest[:-1] in stems:
+        stem, mag = rest[:-1], int(rest[-1])
+    else:
+        raise ValueError("not an IUPAC style key of a known ion: %r" % key)
+    sub = _quiet(Substance.from_formula, stem + sign + (str(mag) if mag > 1 else "") + suffix)
+    sub.name = key
+    return sub
+
+
 def _with_charge(f, z):
     f = dict(f)
     if f.get("electron"):
@@ -439,11 +500,12 @@ _small_formulas_noel = G.formulas(max_depth=1, max_terms=2, max_hydrates=1, allo
 @st.composite
 def ionic_dict_cases(draw):
     mode = draw(st.sampled_from(MODES))
+    factory = draw(st.sampled_from(FACTORIES + ["default"]))
     n = draw(st.integers(1, 9))
     specs = []     # ion descriptions
     seen = set()
     for _ in range(n):
-        if draw(st.integers(0, 2)) == 0:
+        if factory == "iupac" or draw(st.integers(0, 2)) == 0:
             ion = {"pool": draw(st.integers(0, len(POOL) - 1))}
         else:
             ion = {"f": _with_charge(draw(_small_formulas), draw(st.sampled_from(CHARGES)))}
@@ -462,7 +524,20 @@ def ionic_dict_cases(draw):
         extra = _balancer(draw, [(z, nn, k) for z, (nn, k) in zip(zs, dy)])
 
     def add_ion(z_new, b_new):
-        """one more entry under a key not used so far (a G1 formula carrying the charge z_new)"""
+        """one more entry under a key not used so far (a G1 formula carrying the charge z_new; for the iupac factory
+        an unused pool ion of that charge, else the case falls back to the table factory, which takes any key)"""
+        nonlocal factory
+        if factory == "iupac":
+            free = [i for i, (k, z) in enumerate(POOL) if z == z_new and k not in seen]
+            if free:
+                i = draw(st.sampled_from(free))
+                seen.add(POOL[i][0])
+                pos = draw(st.integers(0, len(specs)))
+                specs.insert(pos, {"pool": i})
+                zs.insert(pos, z_new)
+                bs.insert(pos, b_new)
+                return
+            factory = "table"
         f = _with_charge(draw(_small_formulas_noel), z_new)
         cnt = 7
         while G.text(f) in seen:      # deterministic repair, practically never taken
@@ -484,7 +559,9 @@ def ionic_dict_cases(draw):
     for s, b in zip(specs, bs):
         s["b"] = b
     case = {"mode": mode, "ions": specs, "unit": draw(st.sampled_from(MOLALITY_UNITS)),
-            "substances": draw(st.sampled_from(["none", "str", "dict", "synthetic"]))}
+            "substances": draw(st.sampled_from(["none", "str", "dict", "synthetic"] if factory == "default"
+                                               else ["none", "str"])),
+            "factory": factory}
     case.update(_variants(draw, len(specs)))
     return case
 
@@ -506,21 +583,40 @@ def check_ionic_dict(case, ctx):
     unit = case["unit"]
     with_units = unit != "none"
     smode = case["substances"]
-    ctx.label("mode=" + case["mode"], "unit=" + unit, "substances=" + smode, "n=%d" % min(n, 10), _spread_label(bs))
+    factory = case.get("factory", "default")
+    if factory != "default" and smode not in ("none", "str"):
+        ctx.skip("factory_not_consulted")  # a ready mapping never goes through the factory; hand-written replay only
+        return
+    if factory == "iupac" and not all("pool" in ion for ion in case["ions"]):
+        ctx.skip("iupac_factory_needs_pool_ions")
+        return
+    ctx.label("mode=" + case["mode"], "unit=" + unit, "substances=" + smode, "n=%d" % min(n, 10), _spread_label(bs),
+              "factory=" + factory)
     ctx.label(*["src=" + ("pool" if "pool" in ion else "g1") for ion in case["ions"]])
     if any(z == 0 for z in zs):
         ctx.label("has_neutral_species")
     ctx.nontrivial(_nontrivial_ions(bs, zs))
-    if smode == "synthetic":
+    if smode == "synthetic" or factory == "table":
         names = ["S%d" % i for i in range(n)]
+    elif factory == "iupac":
+        names = [iupac_key(k) for k in keys]
     else:
         names = keys
     fact = MOLALITY_FACT[unit]
+    fkw = {}
+    if factory == "species":
+        from chempy.chemistry import Species
+        fkw["substance_factory"] = lambda k: _quiet(Species.from_formula, k)
+    elif factory == "iupac":
+        fkw["substance_factory"] = iupac_factory
+    elif factory == "table":
+        table = dict(zip(names, zs))
+        fkw["substance_factory"] = lambda k: Substance(k, composition=({0: table[k]} if table[k] else {}))
 
     def run(tag, order, bs_):
         uo = _pq_unit(unit) if with_units else None
         d = OrderedDict((names[i], bs_[i] * uo if with_units else bs_[i]) for i in order)
-        kw = {}
+        kw = dict(fkw)
         if smode == "str":
             kw["substances"] = " ".join(names)             # declaration order, not the order of the mapping
         elif smode == "dict":
@@ -938,7 +1034,8 @@ SUBCHECKS = [
              rule="list/tuple/ndarray molalities + charges; base, permuted, split, scaled (2^s and generic) variants",
              tolerances={"value_rel": 1e-12, "relation_rel": 4e-12, "nonneutral_min_rel_net": 1e-12}),
     SubCheck("ionic_dict", check_ionic_dict, strategy=ionic_dict_cases(), quick=500, thorough=30000,
-             rule="mapping formula -> molality; substances None / string / dict of Substance / synthetic Substance objects",
+             rule="mapping formula -> molality; substances None / string / dict of Substance / synthetic Substance objects; "
+                  "substance_factory default / Species.from_formula / IUPAC-key reader / table lookup (None and string forms)",
              tolerances={"value_rel": 1e-12, "relation_rel": 4e-12, "nonneutral_min_rel_net": 1e-12}),
     SubCheck("dh_constants", check_dh, strategy=dh_cases(), quick=500, thorough=24000,
              rule="A and B at two points on the numeric, units= and constants-object paths; b0 omitted, the plain int 1 "
